@@ -207,6 +207,9 @@ fn exec(line: &str) -> (String, Option<String>, bool) {
         // not modelled: judged by the oracle only
         return ("unmodelled: NoSsr".into(), verdict, true);
     }
+    if vds.iter().any(|v| sx(v).contains("(prenh ")) {
+        return ("unmodelled: prebuilt children in a NoHydrate frame".into(), verdict, true);
+    }
     (out.join(" | "), verdict, true)
 }
 
